@@ -2,7 +2,7 @@
 # usage: run/sweep_some.sh <tier> <seed> <prop>...
 cd "$(dirname "$0")/.."
 tier=$1; seed=$2; shift; shift
-if [ -n "$VP_RUN_REPO" ] && [ "$(pwd)" != "/verif" ]; then sed -i "s#path = \"/repo\"#path = \"$VP_RUN_REPO\"#" harness/Cargo.toml; echo "using repo snapshot $VP_RUN_REPO"; fi
+if [ -n "$VP_RUN_REPO" ] && [ "$(pwd)" != "/verif" ]; then sed -i "s#path = \"/repo\"#path = \"$VP_RUN_REPO\"#" harness/Cargo.toml harness_neg/Cargo.toml; echo "using repo snapshot $VP_RUN_REPO"; fi
 for p in "$@"; do
   t0=$(date +%s)
   out=$(VERIF_SEED=$seed python3 run/check.py $p --tier $tier 2>/dev/null)
